@@ -674,6 +674,15 @@ def _patch(ev, sid, code, more_output):
                 return 0
             if nm == 'inflateEnd':
                 return 0
+            if nm in ('min', 'max') and len(children(x)) == 3:
+                # std::min(a, b) / std::max(a, b): the value of the ternary it abbreviates
+                a, b = (ev.ev(y, env) for y in children(x)[1:])
+                if isinstance(a, int) and isinstance(b, int):
+                    return min(a, b) if nm == 'min' else max(a, b)
+                return UNKNOWN
+        if x.get('kind') == 'InitListExpr' and len(children(x)) == 1 and \
+                (absint.type_range(x.get('type')) or absint.type_range(x.get('dtype'))):
+            return ev.ev(children(x)[0], env)      # braced scalar `std::ptrdiff_t{n}`
         if x.get('kind') == 'MemberExpr':
             c = children(x)
             b = strip(c[0]) if c else {}
